@@ -55,6 +55,7 @@ fn main() {
         let v: serde_json::Value = serde_json::from_str(&txt).expect("replay file is JSON");
         let code = match v["property"].as_str().unwrap_or("") {
             "C17" => c17::replay(&v),
+            "C01" | "C03" | "C04" | "C05" | "C06" => relcheck::replay(&v),
             "C11" => c11::replay(&v),
             "C07" => c07::replay(&v),
             "C09" => c09::replay(&v),
